@@ -56,6 +56,16 @@ ASSUMPTIONS = [
     'converted (main memory maps, from text expanded by the main writer)',
 ]
 
+# Classes of input that are avoided by construction because skool2html is known to fail on them (see the final
+# report / known_findings.json). Set a flag to False once the defect is repaired to let the search cover the class.
+AVOID = {
+    'F29': True,    # #LINK(map#address) with a non-default AddressAnchor where the address is not converted
+    'F30': True,    # single-page mode: operand that addresses an @remote entry is linked to the current page
+    'F31': True,    # -j NAME with a StyleSheetPath directory that does not exist yet: FileNotFoundError
+    'F32': True,    # #LINK(ListItems/BulletPoints box page#anchor)() with blank link text: ValueError
+    'F33': True,    # #LINK(custom memory map) from a secondary disassembly whose entries would not appear on that map
+}
+
 # ---------------------------------------------------------------------------
 # Drawing helpers (every choice is a Hypothesis draw; strategies are cached)
 # ---------------------------------------------------------------------------
@@ -231,6 +241,9 @@ def gen_world(d):
     o['rebuild'] = d.chance(25)
     o['theme'] = d.choice([None, None, None, None, 'dark', 'wide'])
     o['join_css'] = d.choice([None, None, None, None, None, 'all.css'])
+    o['css_path'] = d.choice(['css', 'static/css']) if d.chance(20) else None
+    if o['join_css'] and o['css_path'] and AVOID['F31']:
+        o['css_path'] = None
     o['css'] = d.choice([None, None, None, 'skoolkit.css;game.css', 'game.css'])
     o['js'] = d.choice([None, None, None, 'game.js', 'game.js;extra.js'])
     o['logo'] = d.choice([None, None, None, None, 'macro', 'image', 'image-missing'])
@@ -255,8 +268,8 @@ def gen_world(d):
         p['GameStatusBuffer'] = d.choice(['gsb.html', 'maps/gsb.html'])
     if d.chance(20):
         p['GameIndex'] = d.choice(['home.html', 'top/index.html'])
-    if d.chance(20):
-        p['StyleSheetPath'] = d.choice(['css', 'static/css'])
+    if o['css_path']:
+        p['StyleSheetPath'] = o['css_path']
     if d.chance(20):
         p['JavaScriptPath'] = d.choice(['js', 'static/js'])
     if d.chance(20):
@@ -353,7 +366,7 @@ def gen_world(d):
             p[pid] = d.choice(['pages/%s.html' % pid.lower(), 'reference/%s.html' % pid.lower()])
         boxes.append({'id': pid, 'prefix': prefix, 'stype': stype, 'custom': pid in ('Notes', 'News'), 'entries': ents,
                       'js': d.chance(15)})
-        pages[pid] = {'path': p.get(pid, path), 'anchors': [e['anchor'] for e in ents], 'kind': 'box'}
+        pages[pid] = {'path': p.get(pid, path), 'anchors': [e['anchor'] for e in ents], 'kind': 'box', 'listbox': bool(stype)}
     # custom content pages
     cpages = w['cpages'] = []
     for k in range(d.choice([0, 0, 1, 1, 2])):
@@ -448,6 +461,8 @@ class TextGen:
             anchor = '#$%04X' % entry['addr']
         elif k == 2:
             anchor = '#' + self.afmt(d.choice(entry['instrs'])['addr'])     # literal id of an instruction of the entry
+            if anchor[1].isupper():
+                anchor = ''          # '#C000' in the expansion would be read as a macro named #C
         if anchor:
             self._count('R:anchor')
         text = ''
@@ -460,21 +475,25 @@ class TextGen:
         d = self.d
         pages = self.w['pages']
         pid = d.choice(sorted(pages))
+        if pid == 'Custom' and not main_writer and 'Custom' not in self.w['paths'] and AVOID['F33']:
+            pid = 'MemoryMap'
         pg = pages[pid]
         anchor = ''
         if pg['anchors'] and d.chance(55):
             a = d.choice(pg['anchors'])
             if pg['kind'] == 'map':
                 # converted to the AddressAnchor format by the main writer (F29: not by a secondary writer)
-                if self.eff_dec or main_writer:
+                if self.eff_dec or main_writer or not AVOID['F29']:
                     anchor = '#%d' % a
             elif pg['kind'] == 'omap':
-                if self.eff_dec:         # F29: never converted for other-code index pages
+                if self.eff_dec or not AVOID['F29']:         # F29: never converted for other-code index pages
                     anchor = '#%d' % a
             else:
                 anchor = '#%s' % a
         self._count('LINK:' + pg['kind'] + ('#' if anchor else ''))
-        text = self.words(2) if (d.chance(70) or pg['kind'] == 'existing') else ''
+        text = self.words(2) if d.chance(70) else ''
+        if anchor and pg.get('listbox') and AVOID['F32']:
+            text = text or 'item'
         return '#LINK(%s%s)(%s)' % (pid, anchor, text)
 
     # -- images / audio -----------------------------------------------------------------
@@ -492,10 +511,12 @@ class TextGen:
         if k < 6:
             return '#SCR1,%d,%d,%d,1(%s)' % (d.int(0, 30), d.int(0, 23), d.int(1, 2), name)
         if k < 8:
-            return '#FONT:(%s)15360,%d,1(%s)' % (d.choice(['hi', 'A', 'ok!']), attr, name)
+            return '#FONT15360,0,%d,1(%s)(%s)' % (attr, d.choice(['hi', 'A', 'ok!']), name)
         if k == 8:
-            return '#UDGARRAY2,%d,1;%d-%d-8(%s)' % (attr, a, a + 8, name)
-        return '#UDGARRAY1,%d,1;%d(*fr%d)#UDGARRAY*fr%d(%s)' % (attr, a, a % 7, a % 7, name.split('|')[0] + '_f')
+            a = min(a, 65520)
+            return '#UDGARRAY2,%d,1(%d-%d-8)(%s)' % (attr, a, a + 8, name)
+        n = a % 7
+        return '#UDG%d,%d,1(*fr%d)#UDG%d,%d,1(*gr%d)#FRAMES(fr%d;gr%d,10)(%s)' % (a, attr, n, a, attr ^ 1, n, n, n, name.split('|')[0] + '_f')
 
     def macro_audio(self):
         d = self.d
@@ -558,6 +579,10 @@ def render_skool(d, w, tg, code):
     own_i = [i['addr'] for e in code['entries'] if e['ctl'] == 'i' for i in e['instrs']]
     inside = [i['addr'] + 1 for e in code['entries'] for i in e['instrs'] if i['size'] > 1]
     remote = [a for r in code['remote'] for a in r['addrs']]
+    own_all = {i['addr'] for e in code['entries'] for i in e['instrs']}
+    op_remote = remote
+    if o['single'] and AVOID['F30']:
+        op_remote = [a for a in remote if a in own_all]
     undeclared = [e['addr'] for c in w['codes'] if c is not code for e in c['entries'] if e['addr'] not in remote]
     label_n = [0]
 
@@ -565,10 +590,13 @@ def render_skool(d, w, tg, code):
         return '$%04X' % a if code['hex'] else str(a)
 
     def target(entry, ins):
-        pools = [own_c, own_c, own_entries, own_eps, own_eps, own_mid, remote, remote, undeclared, inside, own_i,
+        pools = [own_c, own_c, own_entries, own_eps, own_eps, own_mid, op_remote, op_remote, undeclared, inside, own_i,
                  [i['addr'] for i in entry['instrs']], [ins['addr']], [23296, 65535, 0]]
         pools = [p for p in pools if p]
-        return d.choice(d.choice(pools))
+        t = d.choice(d.choice(pools))
+        if t in remote and t not in own_all and t not in op_remote:
+            t = entry['addr']            # F30 avoided
+        return t
 
     if remote_lines and d.chance(50):
         lines += remote_lines
@@ -612,7 +640,7 @@ def render_skool(d, w, tg, code):
             if '{t}' in op:
                 op = op.replace('{t}', fmt(target(e, ins)))
             if '{r}' in op:
-                r = d.choice([0, 8, 16, 24, 32, 40, 48, 56])
+                r = d.choice([x for x in (0, 8, 16, 24, 32, 40, 48, 56) if x in op_remote or x not in remote])
                 op = op.replace('{r}', ('$%02X' % r) if code['hex'] else str(r))
             while '{n}' in op:
                 op = op.replace('{n}', str(d.int(0, 255)), 1)
@@ -833,7 +861,8 @@ USER_ERRORS = ('SkoolKitError', 'SkoolParsingError')
 F15_SIG = 'dup-id:single-page-entry-header+first-instruction'
 F28_SIG = 'dup-id:mid-block-comment+instruction'
 F29_SIG = 'fragment:link-map-anchor-not-converted'
-KNOWN_SIGS = {F15_SIG: 'F15', F28_SIG: 'F28', F29_SIG: 'F29'}
+F30_SIG = 'fragment:single-page-operand-link-to-remote-entry'
+KNOWN_SIGS = {F15_SIG: 'F15', F28_SIG: 'F28', F29_SIG: 'F29', F30_SIG: 'F30'}
 
 
 def _run(case, argv, tag):
@@ -923,6 +952,11 @@ def check_tree(tree, prefix, announced, model, kinds, fallback=None):
                 conv = [f(int(frag)) for f in (lambda a: '%04x' % a, lambda a: '%04X' % a)]
                 if any(c in tpage.ids for c in conv):
                     sig = F29_SIG
+        if kind == 'fragment' and ref.url.startswith('#') and 'td.instruction' in ref.ctx:
+            here = [mp for mp in model['pages'] if mp['single'] and pjoin(prefix, mp['file']) == fname]
+            frag = ref.url[1:]
+            if here and any(mp['single'] and mp['code'] != here[0]['code'] and frag in mp['ids'] for mp in model['pages']):
+                sig = F30_SIG
         probs.append((sig, '%s: %s %s="%s" (in %s): %s %s' % (fname, ref.tag, ref.attr, ref.url, '>'.join(ref.ctx[-3:]), kind, detail)))
     # ---- ids ------------------------------------------------------------------------------------------------
     mpages = {pjoin(prefix, mp['file']): mp for mp in model['pages']}
@@ -1007,12 +1041,13 @@ def oracle(case, rec=None):
             ann2 = _announced(r2.out)
             tree2 = htmlscan.scan_tree(s.path('out2'))
             probs += [(sig, 'run with -w %s: %s' % (wr, m)) for sig, m in check_tree(tree2, prefix, ann2, case['model'], set(wr), tree1)]
+    if rec is not None and all(sig in (F15_SIG, F28_SIG) for sig, _ in probs):
+        # the remaining predicates held: the case counts as evaluated even if it also shows a known duplicate-id class
+        _record(rec, case, tree1, prefix, sorted({KNOWN_SIGS[sig] for sig, _ in probs}))
     _raise_first(probs, case)
-    if rec is not None:
-        _record(rec, case, tree1, prefix)
 
 
-def _record(rec, case, tree, prefix):
+def _record(rec, case, tree, prefix, known=()):
     model = case['model']
     n_entries = sum(len(mp['entries']) for mp in model['pages'])
     operand_links = frag_links = 0
@@ -1040,6 +1075,8 @@ def _record(rec, case, tree, prefix):
         klass.append('macro-fragment-links')
     for k in case.get('stats', {}):
         klass.append('text:' + k)
+    for k in known:
+        klass.append('shows-known:' + k)
     key = (sorted(case['files'].items()), argv, case['scenario'], case.get('write'), case.get('rerun_argv'))
     rec.case(repr(key), nt, klass, {'argv': argv, 'scenario': case['scenario'], 'write': case.get('write'),
                                    'files': sorted(case['files']), 'entries': n_entries, 'html_files': sum(1 for v in tree.values() if v),
@@ -1066,6 +1103,8 @@ def known_class(sig, case):
     #      entry's first instruction <span id="ADDR"> the same id. Only that pair, only in the single disassembly page.
     # F28: the asm templates give a mid-block (or start) comment row <span id="ADDR"> and the instruction below it
     #      <span id="ADDR"> the same id. Only that pair.
+    # F30: single-page mode; an operand that addresses an @remote entry is linked to "#ADDR" of the current page although
+    #      the entry is on the other disassembly's page (the generator avoids the class).
     # F29: #LINK(map#address): the address is converted to the AddressAnchor format only for main memory maps looked up in
     #      the current writer's own entries (the generator avoids the class; the signature is recognised for the reproducer).
     return KNOWN_SIGS.get(sig)
